@@ -1,4 +1,5 @@
-(* C17 — over-long documents are rejected or truncated exactly (theorems are added as they close) *)
+(* C17 — over-long documents are rejected (C17_overlong_rejected) or truncated exactly (the C17_truncate theorems).
+   The first two statements are definitional / a short induction and are proved inline; the others are closed by `exact`. *)
 From SA Require Import Base.Prelude Codec.Codec Index.Index Index.Fast Index.Fast_Proofs Index.Truncate Index.Truncate_Proofs Index.Index_Spec Index.Index_Proofs2.
 Open Scope N_scope.
 (* truncate=True is by construction the index of the first MAX_POSN tokens of every document *)
